@@ -2098,7 +2098,13 @@ impl<'a> Searcher<'a> {
                 expr.right.as_ref().unwrap(),
             );
 
-            result = match field_value.get_type() {
+            // the text operators see a number as it is printed (so that `not size like '1%'` is the complement of `size like '1%'`)
+            let value_type = match (op, field_value.get_type()) {
+                (Op::Like | Op::NotLike | Op::Rx | Op::NotRx, VariantType::Int | VariantType::Float) => &VariantType::String,
+                (_, value_type) => value_type,
+            };
+
+            result = match value_type {
                 VariantType::String => {
                     let val = value.to_string();
                     // the same text means different things to `=`, LIKE and `=~`
